@@ -36,12 +36,33 @@ fn sd(seed: Option<u64>) -> String {
 }
 
 fn mh_case(ctx: &Ctx, n: usize, seed: Option<u64>) {
-    let case = json!({"sampler": "MH", "n_chains": n, "seed": sd(seed)});
+    mh_case_v(ctx, n, seed, 0);
+    // the proposal handed to the constructor has already produced candidates (a trial draw): its per-chain copies
+    // must still be driven by different streams
+    if n <= 8 || n == 64 {
+        mh_case_v(ctx, n, seed, 1);
+        mh_case_v(ctx, n, seed, 70);
+    }
+}
+fn mh_case_v(ctx: &Ctx, n: usize, seed: Option<u64>, pre_used: usize) {
+    let case = json!({"sampler": "MH", "n_chains": n, "seed": sd(seed), "proposal_samples_before_construction": pre_used});
     let tag = if seed.is_some() { "seeded" } else { "unseeded" };
     ctx.evals(1);
     ctx.state(hash_str(&case.to_string()));
     let r = catch(|| {
-        let mut s = mh_build(n, seed, true);
+        let mut s = if pre_used == 0 {
+            mh_build(n, seed, true)
+        } else {
+            let mut p = mini_mcmc::distributions::IsotropicGaussian::<f64>::new(1.0);
+            for _ in 0..pre_used {
+                let _ = p.sample(&[0.0, 0.0]);
+            }
+            let s = MetropolisHastings::new(mh_target(), p, vec![vec![0.25, -0.5]; n]);
+            match seed {
+                Some(x) => s.seed(x),
+                None => s,
+            }
+        };
         // (i) proposal generators pairwise different, first proposals from the common state differ
         let props: Vec<_> = s.chains.iter().map(|c| c.proposal.clone()).collect();
         let firsts: Vec<Vec<u64>> = s.chains.iter().map(|c| c.proposal.clone().sample(&c.current_state).iter().map(|x| x.to_bits()).collect()).collect();
@@ -82,6 +103,9 @@ fn mh_case(ctx: &Ctx, n: usize, seed: Option<u64>) {
             }
             let _ = mv;
         }
+    }
+    if pre_used != 0 {
+        return;
     }
     // (iii) user-defined seedable proposal: acceptance generator never equals the proposal generator of the same chain
     let r = catch(|| {
@@ -297,7 +321,7 @@ fn concurrent_construction(ctx: &Ctx) {
 }
 
 pub fn run(ctx: &Ctx) {
-    ctx.rule("grid: n_chains in the stated set x seeds {unseeded, 0, 1, 42, 2^32, u64::MAX-40, u64::MAX-1, u64::MAX} x {MH with the library proposal, MH with a user-defined seedable proposal, HMC (recorded momenta/uniforms per row), NUTS}; all chains start from one common state; pairwise comparison of generators (proposal vs proposal, acceptance vs acceptance, and every chain's proposal generator vs every chain's acceptance generator), first proposals, recorded draws and 64-step (MH) / 3-step trajectories. states = distinct (sampler, n_chains, seed) configurations; transitions = chain steps executed; non-trivial = a configuration whose chains are pairwise distinct");
+    ctx.rule("grid: n_chains in the stated set x seeds {unseeded, 0, 1, 42, 2^32, u64::MAX-40, u64::MAX-1, u64::MAX} x {MH with the library proposal (fresh, and used 1 / 70 times before construction), MH with a user-defined seedable proposal, HMC (recorded momenta/uniforms per row; also batches of 2048-4100 chains and batches installed through the public positions field), NUTS}; all chains start from one common state; pairwise comparison of generators (proposal vs proposal, acceptance vs acceptance, and every chain's proposal generator vs every chain's acceptance generator), first proposals, recorded draws and 64-step (MH) / 3-step trajectories. states = distinct (sampler, n_chains, seed) configurations; transitions = chain steps executed; non-trivial = a configuration whose chains are pairwise distinct");
     proposal_seeding(ctx);
     let ns: Vec<usize> = if ctx.tier.thorough() { (2..=64).collect() } else { vec![2, 3, 8, 64] };
     ctx.extra("n_chains", json!(if ctx.tier.thorough() { "2..=64 (all)".to_string() } else { format!("{ns:?}") }));
@@ -308,6 +332,14 @@ pub fn run(ctx: &Ctx) {
             nuts_case(ctx, *n, *seed);
         }
         hmc_case(ctx, *n, *seed);
+    });
+    // batches at and beyond 4096 momentum values per step (a size at which a sampler might switch to a bulk / parallel
+    // way of drawing): 2048 and 4100 two-dimensional chains from one common start
+    let big: Vec<usize> = if ctx.tier.thorough() { vec![2047, 2048, 2049, 4100] } else { vec![2048, 2049] };
+    big.par_iter().for_each(|n| {
+        for seed in [None, Some(42u64)] {
+            hmc_case_v(ctx, *n, seed, false);
+        }
     });
     concurrent_construction(ctx);
     ctx.assume("free-running supplement (NOT exhaustive, schedules are sampled by the OS): 16 threads x 150 (quick) / 1500 (thorough) default constructions of 64-chain MH samplers, generators pairwise distinct within each sampler; it exists because constructors contain no scheduling point");
@@ -320,7 +352,7 @@ pub fn check_case(ctx: &Ctx, case: &Value) {
     match case["sampler"].as_str() {
         Some("proposal") => proposal_seeding(ctx),
         Some("MH-concurrent-construction") => concurrent_construction(ctx),
-        Some("MH") => mh_case(ctx, n, seed),
+        Some("MH") => mh_case_v(ctx, n, seed, case["proposal_samples_before_construction"].as_u64().unwrap_or(0) as usize),
         Some("NUTS") => nuts_case(ctx, n, seed),
         Some("HMC") => hmc_case_v(ctx, n, seed, case["batch_installed_through_positions_field"].as_bool().unwrap_or(false)),
         _ => {}
